@@ -12,15 +12,18 @@ git -C /repo worktree add -q --detach $WT HEAD || exit 2
 trap 'git -C /repo worktree remove --force '$WT' >/dev/null 2>&1; rm -rf '$WT' /tmp/confirm-'$N'.log' EXIT
 DEMO=$(ls $S/*_test.go 2>/dev/null | head -1)
 [ -z "$DEMO" ] && { echo "no demo test in $S"; exit 2; }
-RUN=$(grep -o "func Test[A-Za-z0-9_]*" $DEMO | head -1 | sed 's/func //')
+# every test of the demo file; with the race detector when the agent's own commands used it
+RUN=$(grep -o "func Test[A-Za-z0-9_]*" $DEMO | sed 's/func //' | paste -sd'|')
+RACE=""
+grep -q -- "-race" $S/meta.json && RACE="-race"
 cp $DEMO $WT/$DEMO_DIR/zz_demo_test.go || exit 2
 echo "[1] demo on unchanged tree ($DEMO_DIR, $RUN)"
-/opt/gothemis-fake/acra-go.sh $WT test -vet=off -count=1 ./$DEMO_DIR/ -run "^$RUN\$" > /tmp/confirm-$N.log 2>&1; A=$?
+/opt/gothemis-fake/acra-go.sh $WT test $RACE -vet=off -count=1 ./$DEMO_DIR/ -run "^($RUN)\$" > /tmp/confirm-$N.log 2>&1; A=$?
 tail -3 /tmp/confirm-$N.log
 git -C $WT apply $S/patch.diff || { echo "patch does not apply"; exit 2; }
 echo "[2] build with change"; /opt/gothemis-fake/acra-go.sh $WT build ./... >/dev/null 2>&1; B=$?
 echo "[3] demo with change"
-/opt/gothemis-fake/acra-go.sh $WT test -vet=off -count=1 ./$DEMO_DIR/ -run "^$RUN\$" > /tmp/confirm-$N.log 2>&1; C=$?
+/opt/gothemis-fake/acra-go.sh $WT test $RACE -vet=off -count=1 ./$DEMO_DIR/ -run "^($RUN)\$" > /tmp/confirm-$N.log 2>&1; C=$?
 grep -v "level=" /tmp/confirm-$N.log | tail -6
 rm $WT/$DEMO_DIR/zz_demo_test.go
 echo "[4] acra full suite with change"; /opt/gothemis-fake/acra-fulltest.sh $WT; D=$?
